@@ -62,6 +62,14 @@ class K(Base):
     @prop.setter
     def prop(self, v: {h2}) -> None:
         self._v = v
+    {m}
+    @property
+    def loose(self):
+        return self._w
+    {ms}
+    @loose.setter
+    def loose(self, v: {h1}):
+        self._w = v
     def unannotated(self, x):
         return x
     {nesteddec}
@@ -80,7 +88,7 @@ class DC:
 '''
 
 MEMBERS = ['plain', 'cm', 'sm', 'prop', 'prop', 'inner', 'meth']
-HAS_SELF = {'plain': True, 'cm': True, 'sm': False, 'prop': True, 'inner': True, 'meth': True}
+HAS_SELF = {'plain': True, 'cm': True, 'sm': False, 'prop': True, 'loose': True, 'inner': True, 'meth': True}
 
 
 def source(h1, h2, confkw, route):
@@ -135,7 +143,7 @@ def run_case(prop, name, spec, confkw, tier, src):
         else:
             out.discharged += 1
         anynode = refsem.Node('any')
-        for mname in ('plain', 'cm', 'sm', 'prop', 'inner', 'meth'):
+        for mname in ('plain', 'cm', 'sm', 'prop', 'loose', 'inner', 'meth'):
             ra, rb = A.get(mname, []), B.get(mname, [])
             if len(ra) != len(rb):
                 out.findings.append({'kind': 'c13_side', 'program': mname,
@@ -258,6 +266,8 @@ def replay_c13(p):
                     K.Nested().inner(obj)
                 elif m == 'meth':
                     ns['DC'].meth(object.__new__(ns['DC']), obj)
+                elif m == 'loose':
+                    inst.loose = obj
                 elif m == 'prop':
                     if src.get('index', 0) == 0:
                         inst._v = obj
